@@ -127,6 +127,10 @@ func (s *Sim) Scenario() *ScenarioOut {
 		period := ap.MinVotingPeriodBlocks()
 		applying := start + period + ap.LazyApplyingBlocks() + int64(r.Intn(2))
 		opts := [][]byte{[]byte(optionPool[r.Intn(len(optionPool))]), []byte(optionPool[r.Intn(len(optionPool))])}
+		if r.Chance(50) { // eligibility-changing parameters: validator membership changes without any stake change
+			el := []string{`{"minValidatorStake":"3000000000000000000"}`, `{"minValidatorStake":"20000000000000000000"}`, `{"maxValidatorCnt":"1"}`, `{"maxValidatorCnt":"2"}`, `{"minValidatorStake":"6000000000000000000"}`}
+			opts[0] = []byte(el[r.Intn(len(el))])
+		}
 		optType := int32(257)
 		if r.Chance(30) {
 			optType = 512
